@@ -217,6 +217,39 @@ def check_loops(p, report, funcs, facts, rule21="R2.1", rule22="R2.2", only=None
                                f"`{bad[0]}` in the index is not built from the picks alone (it is initialised from other data, "
                                f"e.g. the labels): samples that were never picked - labeled candidates - are NaN in every row and "
                                f"can be returned with a NaN utility")
+        # R2.13: what the later steps' utilities are computed from is updated with every pick in EVERY configuration: a
+        # pick-indexed store into an array the selection operand depends on is not switched off by a loop-invariant flag
+        if rule21 == "R2.1":
+            assigned_in_loop = {n.id for n in ast.walk(L) if isinstance(n, ast.Name) and isinstance(n.ctx, ast.Store)}
+            params_ = set(f.all_param_names())
+            ops13 = closure(c01.operand_names(S, ff.locs), edges)
+            for n in ast.walk(L):
+                if not (isinstance(n, ast.Assign) and len(n.targets) == 1 and isinstance(n.targets[0], ast.Subscript)
+                        and base_name(n.targets[0]) in ops13 and (index_names(n.targets[0]) & pick_names)
+                        and not c01.is_nan_expr(n.value) and not isinstance(n.value, ast.Constant)):
+                    continue
+                flag = None
+                for (s_, owner, field, idx_) in tree.ancestors(n):
+                    if owner is L:
+                        break
+                    if isinstance(owner, ast.If) and field == "body" and tree.contains(L, owner):
+                        # an alternative store into the same array in the other arm is a mode switch, not a switch-off
+                        alt = any(isinstance(m, ast.Assign) and isinstance(m.targets[0], ast.Subscript)
+                                  and base_name(m.targets[0]) == base_name(n.targets[0]) for st_ in owner.orelse for m in ast.walk(st_))
+                        if alt:
+                            continue
+                        atoms = owner.test.values if isinstance(owner.test, ast.BoolOp) and isinstance(owner.test.op, ast.And) else [owner.test]
+                        for at in atoms:
+                            nm = names_in(at) - {"np", "numpy", "len"}
+                            if nm and not (nm & assigned_in_loop) and not (nm & params_) \
+                                    and not any(isinstance(x, ast.Attribute) for x in ast.walk(at)):
+                                flag = flag or (owner, at)
+                report.add("R2.13", ent, f"{loop_id}: update `{norm_stmt(n, 60)}` happens in every configuration",
+                           f"{f.file}:{n.lineno}", flag is None,
+                           detail="not under a loop-invariant flag" if flag is None else
+                           f"`{ast.unparse(flag[1])[:50]}` does not change inside the loop: when it is false the array `{base_name(n.targets[0])}` "
+                           f"that the later selections read is never brought up to date with the picks, so from the second step on the "
+                           f"utilities (and the winners' own entries) are stale / NaN in that configuration")
         if n21 == 0:
             # exclusion by another mechanism (distance-to-selected, shrinking pool): nothing to order
             report.add(rule21, ent, f"{loop_id}: no NaN mask indexed by the picks", f"{f.file}:{S.lineno}", True,
@@ -598,6 +631,10 @@ def run(p, report, tier):
     report.rule("R2.11", "NaN exactly at earlier picks: inside a selection loop a NaN written into a returned utilities row is "
                 "indexed by the picks (accumulators that start empty / constant, loop counters, the candidate mapping) - an "
                 "index array initialised from the labels also blanks labeled candidates that were never picked", floor=5)
+    report.rule("R2.13", "the chosen sample attains the optimum of ITS row in every configuration: inside a selection loop a "
+                "pick-indexed update of an array the selection operand is computed from is not guarded by a loop-invariant local "
+                "flag without an alternative update in the other arm (tests on the loop counter - skipping the unused last "
+                "update - are not judged)", floor=1)
     report.rule("R2.12", "a batch is never taken as the row-wise optimum of several utility rows at once: the indices a pool "
                 "query returns do not come from an `axis=`-wise rand_argmax / argmax outside a selection loop (the rows are "
                 "independent, so one sample can win two rows and is then NaN in its own row)", floor=20)
